@@ -116,7 +116,7 @@ DEFAULT_CFG = {
     "cs": ["p1", "p1"],  # client stream shapes
     "ss": ["d1", "d1"],  # response shapes (by marker)
     "limit": None,       # MAX_CONCURRENT_STREAMS in the server's first SETTINGS (None: hyper-h2's default 100)
-    "lower": None,       # a later SETTINGS lowering the limit to this value
+    "lower": None,       # a later SETTINGS frame that changes the limit to this value (lower *or* higher than `limit`)
     "stream": "none",    # none | req | resp | both : flow.request.stream / flow.response.stream
     "win": None,         # None: peers grant window at once; int: INITIAL_WINDOW_SIZE of both peers, grants are environment actions
     "seg": "whole",      # whole | mid | bytes | coalesce
@@ -140,7 +140,9 @@ def cfg_features(cfg):
         kinds.append("srst")
     return {
         "up": cfg["up"], "n": len(cfg["cs"]), "limit": cfg["limit"] if cfg["limit"] is not None else "default",
-        "lower": cfg["lower"] is not None, "stream": cfg["stream"], "win": cfg["win"] is not None, "seg": cfg["seg"],
+        "lower": cfg["lower"] is not None,
+        "change": "-" if cfg["lower"] is None else ("raise" if cfg["lower"] > (cfg["limit"] if cfg["limit"] is not None else 100) else "lower"),
+        "stream": cfg["stream"], "win": cfg["win"] is not None, "seg": cfg["seg"],
         "resets": "+".join(kinds) or "-", "sset": cfg["sset"], "connect": cfg["connect"], "early": bool(cfg.get("early")),
         "trailers": any(s == "pt" for s in cfg["cs"]) or any(s == "dt" for s in cfg["ss"]),
     }
